@@ -294,13 +294,14 @@ def run_batch(check, tier: str, seed: int, runs: int | None = None, start: int =
 
     canaries = run_canaries(check, known) if write_evidence and not leg else {}
     opt_leg = run_optimised_leg(check, tier, seed) if not leg and full_tier else (0, None, 0)
+    t_main = time.time()                # the wall cap bounds the main batch; the canaries and the -O leg have their own limits
     jobs = [(seed, tier, list(range(s, min(s + chunk, start + runs)))) for s in range(start, start + runs, chunk)]
     results = []
     harness_errors = []
     truncated = False
     if workers == 1:
         for job in jobs:
-            if time.time() - t0 > wall_cap_s:
+            if time.time() - t_main > wall_cap_s:
                 truncated = True
                 break
             results.append(_work(job))
@@ -313,7 +314,7 @@ def run_batch(check, tier: str, seed: int, runs: int | None = None, start: int =
             try:
                 while True:
                     while not exhausted and not truncated and len(pending) < workers * 3:
-                        if time.time() - t0 > wall_cap_s:
+                        if time.time() - t_main > wall_cap_s:
                             truncated = True
                             break
                         job = next(it, None)
